@@ -44,9 +44,17 @@ def apply_edit(root: str, e: dict) -> None:
 
 
 def run_tests(root: str) -> bool:
+    try:
+        return _run_tests(root)
+    except subprocess.TimeoutExpired:
+        return False
+
+
+def _run_tests(root: str) -> bool:
     p = subprocess.run(
         ["/venv/bin/python", "-m", "pytest", "-q", "-p", "no:cacheprovider", "--continue-on-collection-errors", "tests"],
         cwd=root, capture_output=True, text=True, env={**os.environ, "PYTHONPATH": root, "PYTHONDONTWRITEBYTECODE": "1"},
+        timeout=600,
     )
     tail = p.stdout.strip().splitlines()[-1] if p.stdout.strip() else ""
     return " failed" not in tail and "passed" in tail
